@@ -250,6 +250,18 @@ def glue_part2(T: Types, reg: Registry, C: dict):
             ]),
         ], properties=["C03", "C19"])
 
+    def step_retry_order(eng, st, label):
+        """C19: the invocation must not be deliverable again before its retry counter is written (a runner that picks it up at once would
+        compare the old counter with max_retries and grant one execution too many)"""
+        from pyvc.engine import Ctx
+        c = Ctx(eng, st, eng.self_ref, st.ghost.get("$args", {}))
+        i = c.arg("invocation_id")
+        r_t = MapT(ID, INT)
+        old_r = z3.If(r_t.opt.is_some(z3.Select(c.old(RETRIES), i)), r_t.opt.val(z3.Select(c.old(RETRIES), i)), 0)
+        eng.oblige(st, z3.Implies(z3.Select(c.f(QUEUE), i) > z3.Select(c.old(QUEUE), i), z3.Select(c.f(RETRIES), i) == r_t.opt.some(old_r + 1)),
+                   f"step:{label}:C19:re-queued-only-after-the-retry-counter-is-written", "step")
+    C["set_invocation_retry"].step_hooks = [step_retry_order]
+
     def can_reroute(c, i):
         """REROUTED is reachable from the current status for requester ctx (edge + ownership)."""
         return z3.And(known(T, c.f(REC), i), z3.Not(spec_step_error(T, z3.Select(c.f(REC), i), T.S("REROUTED"), rid_some(c))))
